@@ -19,6 +19,9 @@ Faults == {"dial_refused", "dial_timeout", "tls_garbage", "tls_untrusted", "tls_
            \* completes its TLS handshake (https proxy) - the connect time-out applies
            "proxy_stall", "proxy_tls_stall",
            "cut_head", "cut_body_cl", "cut_body_chunked", "rst_head", "rst_body",
+           \* a reply delimited by the end of the connection whose connection is reset in the middle of the body: the reset is
+           \* the only sign that the body is not complete, and an HTTP/1.1 client can be told (the relayed body is chunked)
+           "rst_body_eof",
            "bad_status_line", "bad_field", "bad_field_ctl", "bad_value_ctl", "bogus_101", "bad_chunk_size", "bad_gzip", "trailing_garbage", "none"}
 \* which faults can occur for which kind of request
 Applies(f, k) ==
@@ -29,7 +32,7 @@ Applies(f, k) ==
     [] f \in {"cut_head", "rst_head", "bad_status_line", "bad_field", "bad_field_ctl", "bad_value_ctl", "trailing_garbage", "none"} -> k # "CONNECT"
     \* a 101 nobody asked for (the request was no upgrade request): no tunnel, and no head has been sent to the client yet
     [] f = "bogus_101" -> k \in {"GET", "POST", "GETviaProxy", "MITMGET"}
-    [] f \in {"cut_body_cl", "cut_body_chunked", "rst_body", "bad_chunk_size", "bad_gzip"} -> k \notin {"CONNECT", "CONNECTviaProxy", "HEAD"}
+    [] f \in {"cut_body_cl", "cut_body_chunked", "rst_body", "rst_body_eof", "bad_chunk_size", "bad_gzip"} -> k \notin {"CONNECT", "CONNECTviaProxy", "HEAD"}
     [] OTHER -> TRUE
 \* what the client must get: an error response of the given status set, a connection closed after the
 \* head (never a complete message), or the origin's complete response
@@ -52,7 +55,7 @@ Outcome(f, k) ==
   ELSE IF f = "trailing_garbage" THEN [o |-> "full_or_error", st |-> 500..599]
   \* bad_gzip: the proxy itself solicited gzip (client sent no Accept-Encoding) and the stream it decodes is
   \* damaged in the middle / fails its checksum at the end: a failure after the head, like a cut
-  ELSE IF f \in {"cut_body_cl", "cut_body_chunked", "rst_body", "bad_chunk_size", "bad_gzip"} THEN [o |-> "closed_after_head", st |-> {200}]
+  ELSE IF f \in {"cut_body_cl", "cut_body_chunked", "rst_body", "rst_body_eof", "bad_chunk_size", "bad_gzip"} THEN [o |-> "closed_after_head", st |-> {200}]
   \* inside the session the rejection reaches the client as the answer to its own request: the upstream proxy's status
   \* or a 5xx of the proxy's own
   ELSE IF k \in {"MITMGETviaRej", "MITMHEADviaRej"} THEN [o |-> "error_response", st |-> Statuses(f) \cup (500..599)]
@@ -61,7 +64,7 @@ Outcome(f, k) ==
 \* --log-http mode of the proxy: the logging modifier sits between the round trip and the write to the client (in
 \* mode body it reads the reply body itself), and must not change any outcome
 LogModes == {"errors", "headers", "body"}
-BodyPhase(f) == f \in {"cut_body_cl", "cut_body_chunked", "rst_body", "bad_chunk_size", "bad_gzip", "trailing_garbage", "none"}
+BodyPhase(f) == f \in {"cut_body_cl", "cut_body_chunked", "rst_body", "rst_body_eof", "bad_chunk_size", "bad_gzip", "trailing_garbage", "none"}
 Cases == {c \in [f : Faults, k : Kinds, log : LogModes] :
             /\ Applies(c.f, c.k)
             /\ ~(c.k = "CONNECTviaProxy" /\ c.f \in {"cut_head", "rst_head", "bad_status_line", "bad_field", "bad_field_ctl", "bad_value_ctl", "trailing_garbage"})
